@@ -539,6 +539,17 @@ impl ASN1Type {
                                 ))),
                             );
                         }
+                        // A parameter without a governor is a type: `NULL` given for it is
+                        // the NULL type, which the lexer cannot tell from the NULL value
+                        (Parameter::ValueParameter(ASN1Value::Null), ParameterGovernor::None) => {
+                            impl_tlds.insert(
+                                dummy_reference.clone(),
+                                ToplevelDefinition::Type(ToplevelTypeDefinition::from((
+                                    dummy_reference.as_str(),
+                                    ASN1Type::Null,
+                                ))),
+                            );
+                        }
                         (Parameter::TypeParameter(t), _) => {
                             impl_tlds.insert(
                                 dummy_reference.clone(),
